@@ -84,7 +84,11 @@ type replayFile struct {
 func TestWorker(t *testing.T) {
 	if *fList {
 		for _, n := range suiteNames() {
-			fmt.Printf("%s\t%s\t%s\n", n, suites[n].Prop, suites[n].Doc)
+			e := 0
+			if suites[n].Enum != nil {
+				e = suites[n].Enum(*fTier)
+			}
+			fmt.Printf("%s\t%s\tenum=%d\t%s\n", n, suites[n].Prop, e, suites[n].Doc)
 		}
 		return
 	}
